@@ -34,16 +34,20 @@ async def debounced_sorted_prefix(
     debouncer = Debouncer(debounce_seconds, max_window_seconds)
     merged = merge_generators(inner, debouncer.aiter())
 
+    flushed = False
     async for item in merged:
         if item == "__COMPLETE__":
             buffer.sort(key=key)
             for buffered_item in buffer:
                 yield buffered_item
             buffer = []
+            flushed = True
         else:
             # item is T after checking != "__COMPLETE__"
             actual_item = cast(T, item)
-            if debouncer.is_complete:
+            # pass through only once the burst has really been flushed: the
+            # debouncer may already be complete while its marker is still in flight
+            if flushed:
                 yield actual_item
             else:
                 debouncer.extend_window()
